@@ -457,6 +457,12 @@ def np_call(ev, name, args, kwargs, node):
             ev.event("inplace", how="overwrite_input=", root=root, target="arg0", node=node, value=A[0])
     if name in ("remainder", "mod", "floor_divide", "true_divide", "power", "negative", "positive") and name in ("remainder", "mod", "floor_divide") and len(A) >= 2:
         return ev.binop("Mod" if name in ("remainder", "mod") else "FloorDiv", as_v(ev, A[0]), as_v(ev, A[1]), node)   # the ufunc forms of % and //
+    if name == "insert" and len(A) == 3 and not kwargs:
+        # np.insert(A, np.searchsorted(A, B), B): the sorted merge of B into the ascending array A — with B CAST TO A's dtype
+        # (np.insert keeps the dtype of its first argument). As a value: sort(concat(A, cast(B))).
+        a, idx, b = as_v(ev, A[0]), as_v(ev, A[1]), as_v(ev, A[2])
+        if isinstance(idx, App) and idx.fn in ("count_lt", "count_le") and len(idx.args) == 2 and idx.args[0] == a and idx.args[1] == b:
+            return mk_app("sort", [App("concat", (a, App("fresh", (b,), [("dtype", Const("other"))])))])
     if name == "dtype" and len(A) == 1:
         from .evalr import ExtV
         return A[0] if isinstance(A[0], ExtV) else App("dtype", (as_v(ev, A[0]),))   # np.dtype(float) is float wherever a dtype is expected
